@@ -80,6 +80,9 @@ func (c15) Gen(r *sim.Rand, tier string, run uint64) *sim.Scenario {
 	sc.Cfg["cap"] = int64(size + 16)
 	if r.Chance(1, 6) && size > 0 {
 		sc.Cfg["cap"] = int64(r.Intn(size + 1))
+	} else if r.Chance(1, 5) {
+		// a block of the history goes through Clone/Append (with a discarded sibling clone)
+		ops = withCloneSegment(r, ops, map[string]bool{"finalize": true, "setbase": true, "listing": true})
 	}
 	sc.Ops = ops
 	return sc
@@ -325,8 +328,54 @@ func (c15) Exec(sc *sim.Scenario, env *sim.Env) *sim.Violation {
 	e := asm.NewEmitter(target, true)
 	m := newAsmModel(true, capacity, true)
 	refusedSoFar := false
+	var seg cloneSeg
+	endSeg := func(i int) *sim.Violation {
+		if !seg.active() {
+			return nil
+		}
+		m.NoCap = false
+		if m.Len > capacity {
+			seg.end(&e)
+			return &sim.Violation{Oracle: "", Step: i} // block does not fit: not this property's subject
+		}
+		if _, msg := seg.end(&e); msg != "" {
+			return &sim.Violation{Oracle: "append_panic", Step: i, Msg: msg}
+		}
+		return nil
+	}
 	for i, op := range sc.Ops {
 		st.SimOps++
+		if op.K == "clone" {
+			if !seg.active() {
+				if msg := seg.begin(&e, capacity+16); msg != "" {
+					return &sim.Violation{Oracle: "clone_panic", Step: i, Msg: msg}
+				}
+				m.NoCap = true
+				st.Probe("block_through_clone")
+			}
+			continue
+		}
+		if op.K == "append" || ((op.K == "finalize" || op.K == "listing") && seg.active()) {
+			if v := endSeg(i); v != nil {
+				if v.Oracle == "" {
+					return nil
+				}
+				return v
+			}
+			if op.K == "append" {
+				continue
+			}
+		}
+		if seg.active() {
+			out := m.step(op)
+			panicked, msg := asmApply(e, op)
+			seg.mirror(op)
+			env.ObsBool(panicked)
+			if panicked != (out.Refused != "") {
+				return &sim.Violation{Oracle: "refusal_mismatch", Step: i, Msg: fmt.Sprintf("op %s inside a cloned block: model refused=%q, library panicked=%v (%s)", op, out.Refused, panicked, msg)}
+			}
+			continue
+		}
 		switch op.K {
 		case "finalize":
 			var err error
